@@ -67,6 +67,18 @@ class FanOut:
                     merged[k] = s
                 if not ev.alts:
                     merged = {}
+                # a loop nested in loops over *other* collections (its own collection is not reached through their element) runs once
+                # per element of those: its objects are visited 0, 1 or many times, not once
+                path = ev.coll.base if isinstance(ev.coll, CollV) else (ev.coll.tag if isinstance(ev.coll, Unk) else None)
+                if path is not None and any(isinstance(lp.var, Obj) and lp.var.name not in path for lp in loopvars):
+                    for k in merged:
+                        if merged[k] != {0}:
+                            merged[k] = merged[k] | {0, -1}
+                # an alternative that leaves the loop (return / break) skips every element after the one it handled
+                if any(ex is not None and ex[0] in ("return", "break") for _tr, ex in ev.alts):
+                    for k in merged:
+                        if merged[k] != {0}:
+                            merged[k] = merged[k] | {0, -1}   # (-1: the traversal itself is irregular, not a condition in the body)
                 # a loop that is not a complete tree traversal makes its counts unreliable: mark with -1
                 if merged and not self.complete(ev):
                     for k in merged:
